@@ -236,13 +236,859 @@ Proof.
     + rewrite (Z.add_comm (cw a) d). apply shiftl_range; lia.
 Qed.
 
-Lemma feedX_bits w p d n s X :
+Lemma feedX_bits w p d n s X : 0 < d ->
   feedX w p d n s X =
   fold_left (wstep w p) (map (fun i => Z.testbit X (d - 1 - Z.of_nat i)) (seq 0 n)) s.
 Proof.
-  revert s X. induction n as [|n IH]; intros s X; [reflexivity|].
+  intros Hd. revert s X. induction n as [|n IH]; intros s X; [reflexivity|].
   cbn [feedX]. rewrite IH. cbn [seq map fold_left]. rewrite <- seq_shift, map_map.
   rewrite Z.sub_0_r. f_equal. apply map_ext_in. intros i Hi. unfold shX.
   rewrite testbit_mask, tb_shl by lia.
   destruct (d - 1 - Z.of_nat i <? d) eqn:E; [|lia]. cbn [andb]. f_equal. lia.
+Qed.
+
+Lemma feedX_word_bits a d s u : 0 < d ->
+  feedX (cw a) (poly a) d (Z.to_nat d) s (wordin a d u) =
+  fold_left (wstep (cw a) (poly a)) (word_bits (refin a) d u) s.
+Proof.
+  intros Hd. rewrite feedX_bits by auto. f_equal. unfold word_bits, wordin.
+  destruct (refin a); [|reflexivity]. apply map_ext_in. intros i Hi. apply in_seq in Hi.
+  rewrite testbit_rev_bits by lia. destruct (d - 1 - Z.of_nat i <? d) eqn:E; [|lia].
+  cbn [andb]. f_equal. lia.
+Qed.
+
+Lemma wfold_range w p bits s : 0 < w -> 0 <= p < 2 ^ w -> 0 <= s < 2 ^ w ->
+  0 <= fold_left (wstep w p) bits s < 2 ^ w.
+Proof.
+  intros Hw Hp. revert s. induction bits as [|b r IH]; intros s Hs; cbn [fold_left]; auto.
+  apply IH. apply wstep_range; auto.
+Qed.
+
+Lemma words_ok_cons d x r : forallb (word_ok d) (x :: r) = true <-> word_ok d x = true /\ forallb (word_ok d) r = true.
+Proof. cbn [forallb]. apply andb_true_iff. Qed.
+
+Lemma compute_reg_fold a d ws : 0 < cw a -> 0 <= poly a < 2 ^ cw a -> 0 < d ->
+  forallb (word_ok d) ws = true -> forall s, 0 <= s < 2 ^ cw a ->
+  fold_left (word_update a d) ws (Z.shiftl s d) =
+  Z.shiftl (fold_left (wstep (cw a) (poly a)) (message_bits a d ws) s) d.
+Proof.
+  intros Hw Hp Hd. induction ws as [|x r IH]; intros Hok s Hs; [reflexivity|].
+  apply words_ok_cons in Hok. destruct Hok as [Hx Hr]. apply word_ok_spec in Hx; [|lia].
+  cbn [fold_left]. unfold message_bits. cbn [flat_map]. rewrite fold_left_app.
+  rewrite word_update_spec, feedX_word_bits by auto. apply IH; auto. apply wfold_range; auto.
+Qed.
+
+(* the Williams register is what the shifted register holds *)
+Lemma compute_reg_williams a d ws : algo_ok a = true -> 0 < d -> forallb (word_ok d) ws = true ->
+  compute_reg a d ws = Z.shiftl (williams_reg a (message_bits a d ws)) d.
+Proof.
+  intros Ha Hd Hok. destruct (algo_ok_spec a Ha) as (Hw & Hp & Hi & Hx).
+  unfold compute_reg, williams_reg. apply compute_reg_fold; auto.
+Qed.
+
+Lemma williams_reg_range a bits : algo_ok a = true -> 0 <= williams_reg a bits < 2 ^ cw a.
+Proof. intros Ha. destruct (algo_ok_spec a Ha) as (Hw & Hp & Hi & Hx). apply wfold_range; auto. Qed.
+
+Lemma compute_raw_williams a d ws : algo_ok a = true -> 0 < d -> forallb (word_ok d) ws = true ->
+  compute_raw a d ws = williams a (message_bits a d ws).
+Proof.
+  intros Ha Hd Hok. unfold compute_raw, williams. rewrite compute_reg_williams by auto.
+  rewrite Z.shiftr_shiftl_l, Z.sub_diag, Z.shiftl_0_r by lia.
+  pose proof (williams_reg_range a (message_bits a d ws) Ha). destruct (algo_ok_spec a Ha) as (Hw & _).
+  destruct (refout a); [rewrite reflect_rev by lia|]; reflexivity.
+Qed.
+
+Theorem compute_is_williams a d ws : params_ok a d = true -> forallb (word_ok d) ws = true ->
+  compute a d ws = Some (williams a (message_bits a d ws)).
+Proof.
+  unfold params_ok. rewrite andb_true_iff. intros [Ha Hd] Hok. unfold compute. rewrite Hok.
+  f_equal. apply compute_raw_williams; auto. lia.
+Qed.
+
+(* an out-of-range word is rejected (ValueError), nothing else is *)
+Theorem compute_none_iff a d ws : compute a d ws = None <-> forallb (word_ok d) ws = false.
+Proof. unfold compute. destruct (forallb (word_ok d) ws); split; congruence. Qed.
+
+(* ------------------------------------------------------------------ GF(2)-linearity of the word update *)
+Lemma wstep_lxor w p s s' b b' : 0 < w ->
+  wstep w p (Z.lxor s s') (xorb b b') = Z.lxor (wstep w p s b) (wstep w p s' b').
+Proof.
+  intros Hw. unfold wstep. rewrite Z.lxor_spec.
+  apply Z.bits_inj'; intros i Hi.
+  destruct (Z.testbit s (w - 1)), (Z.testbit s' (w - 1)), b, b'; cbn [xorb];
+    rewrite ?Z.lxor_spec; fold (mask w (Z.shiftl (Z.lxor s s') 1)); fold (mask w (Z.shiftl s 1));
+    fold (mask w (Z.shiftl s' 1)); rewrite !testbit_mask, !tb_shl, ?Z.lxor_spec by lia; btauto.
+Qed.
+
+Lemma shX_lxor d X X' : 0 < d -> shX d (Z.lxor X X') = Z.lxor (shX d X) (shX d X').
+Proof.
+  intros Hd. unfold shX. apply Z.bits_inj'; intros i Hi.
+  rewrite Z.lxor_spec, !testbit_mask, !tb_shl, Z.lxor_spec by lia. btauto.
+Qed.
+
+Lemma feedX_lxor w p d n : 0 < w -> 0 < d -> forall s s' X X',
+  feedX w p d n (Z.lxor s s') (Z.lxor X X') = Z.lxor (feedX w p d n s X) (feedX w p d n s' X').
+Proof.
+  intros Hw Hd. induction n as [|n IH]; intros s s' X X'; cbn [feedX]; [reflexivity|].
+  rewrite Z.lxor_spec, wstep_lxor, shX_lxor by auto. apply IH.
+Qed.
+
+Lemma feedX_zero w p d n : 0 < w -> 0 < d -> feedX w p d n 0 0 = 0.
+Proof.
+  intros Hw Hd. induction n as [|n IH]; cbn [feedX]; [reflexivity|].
+  replace (wstep w p 0 (Z.testbit 0 (d - 1))) with 0.
+  - replace (shX d 0) with 0; [exact IH|]. unfold shX, mask. rewrite Z.shiftl_0_l, Z.mod_0_l; [reflexivity|].
+    pose proof (pow2_pos d); lia.
+  - unfold wstep. rewrite !Z.testbit_0_l. cbn [xorb]. rewrite Z.shiftl_0_l, Z.mod_0_l; [reflexivity|].
+    pose proof (pow2_pos w); lia.
+Qed.
+
+Fixpoint xsum (f : nat -> Z) (n : nat) : Z :=
+  match n with O => 0 | S n' => Z.lxor (xsum f n') (f n') end.
+
+Definition sel (b : bool) (x : Z) : Z := if b then x else 0.
+
+Lemma feedX_xsum_s w p d n f k : 0 < w -> 0 < d ->
+  feedX w p d n (xsum f k) 0 = xsum (fun j => feedX w p d n (f j) 0) k.
+Proof.
+  intros Hw Hd. induction k as [|k IH]; cbn [xsum]; [apply feedX_zero; auto|].
+  rewrite <- IH. rewrite <- feedX_lxor by auto. rewrite Z.lxor_0_r. reflexivity.
+Qed.
+
+Lemma feedX_xsum_x w p d n f k : 0 < w -> 0 < d ->
+  feedX w p d n 0 (xsum f k) = xsum (fun j => feedX w p d n 0 (f j)) k.
+Proof.
+  intros Hw Hd. induction k as [|k IH]; cbn [xsum]; [apply feedX_zero; auto|].
+  rewrite <- IH. rewrite <- feedX_lxor by auto. rewrite Z.lxor_0_r. reflexivity.
+Qed.
+
+Lemma xsum_ext f g n : (forall j, (j < n)%nat -> f j = g j) -> xsum f n = xsum g n.
+Proof.
+  induction n as [|n IH]; intros H; cbn [xsum]; [reflexivity|]. rewrite IH, H by (intros; auto with arith). reflexivity.
+Qed.
+
+Lemma testbit_xsum_bits x k i : 0 <= i ->
+  Z.testbit (xsum (fun j => sel (Z.testbit x (Z.of_nat j)) (2 ^ Z.of_nat j)) k) i =
+  (i <? Z.of_nat k) && Z.testbit x i.
+Proof.
+  intros Hi. induction k as [|k IH]; cbn [xsum].
+  - rewrite Z.testbit_0_l. destruct (i <? Z.of_nat 0) eqn:E; [lia|reflexivity].
+  - rewrite Z.lxor_spec, IH.
+    assert (E : Z.testbit (sel (Z.testbit x (Z.of_nat k)) (2 ^ Z.of_nat k)) i = (Z.of_nat k =? i) && Z.testbit x i).
+    { destruct (Z.eqb_spec (Z.of_nat k) i) as [<-|N].
+      - destruct (Z.testbit x (Z.of_nat k)); cbn [sel andb]; [apply Z.pow2_bits_true; lia|apply Z.testbit_0_l].
+      - destruct (Z.testbit x (Z.of_nat k)); cbn [sel andb]; [apply Z.pow2_bits_false; lia|apply Z.testbit_0_l]. }
+    rewrite E. destruct (i <? Z.of_nat k) eqn:A, (Z.of_nat k =? i) eqn:B, (i <? Z.of_nat (S k)) eqn:C; try lia;
+      cbn [andb xorb]; btauto.
+Qed.
+
+Lemma xsum_bits x k : 0 <= x < 2 ^ Z.of_nat k ->
+  xsum (fun j => sel (Z.testbit x (Z.of_nat j)) (2 ^ Z.of_nat j)) k = x.
+Proof.
+  intros H. apply Z.bits_inj'; intros i Hi. rewrite testbit_xsum_bits by auto. symmetry. apply testbit_small; auto.
+Qed.
+
+(* ------------------------------------------------------------------ matrices and the XOR network *)
+Lemma nth_map_seq {A} (f : nat -> A) n j dflt : (j < n)%nat -> nth j (map f (seq 0 n)) dflt = f j.
+Proof.
+  intros H. rewrite (nth_indep _ dflt (f 0%nat)) by (rewrite map_length, seq_length; auto).
+  rewrite map_nth, seq_nth by auto. reflexivity.
+Qed.
+
+Lemma unit_algo_ok w p s : 0 < w -> 0 <= p < 2 ^ w -> 0 <= s < 2 ^ w -> algo_ok (Algo w p s false false 0) = true.
+Proof.
+  intros Hw Hp Hs. unfold algo_ok. cbn [cw poly init xorout]. pose proof (pow2_pos w).
+  rewrite !andb_true_iff, !in_bits_spec. repeat split; lia.
+Qed.
+
+(* compute of one word with no reflection and no output xor is the register-level word update *)
+Lemma compute_raw_unit w p d s u : 0 < w -> 0 <= p < 2 ^ w -> 0 < d -> 0 <= s < 2 ^ w -> 0 <= u < 2 ^ d ->
+  compute_raw (Algo w p s false false 0) d [u] = feedX w p d (Z.to_nat d) s u.
+Proof.
+  intros Hw Hp Hd Hs Hu. rewrite compute_raw_williams.
+  - unfold williams, williams_reg, message_bits. cbn [cw poly init refin refout xorout flat_map].
+    rewrite app_nil_r, Z.lxor_0_r.
+    pose proof (feedX_word_bits (Algo w p s false false 0) d s u Hd) as E. cbn [cw poly refin wordin] in E.
+    symmetry. exact E.
+  - apply unit_algo_ok; auto.
+  - auto.
+  - cbn [forallb]. rewrite andb_true_r. apply word_ok_spec; lia.
+Qed.
+
+Lemma pow2_lt_nat j n : (j < n)%nat -> 0 <= 2 ^ Z.of_nat j < 2 ^ Z.of_nat n.
+Proof. intros H. split; [pose proof (pow2_pos (Z.of_nat j)); lia|apply pow2_mono_lt; lia]. Qed.
+
+Lemma matF_spec a d j i : 0 < cw a -> 0 <= poly a < 2 ^ cw a -> 0 < d ->
+  (j < Z.to_nat (cw a))%nat -> (i < Z.to_nat (cw a))%nat ->
+  mat_bit (fst (matrices a d)) j i =
+  Z.testbit (feedX (cw a) (poly a) d (Z.to_nat d) (2 ^ Z.of_nat j) 0) (Z.of_nat i).
+Proof.
+  intros Hw Hp Hd Hj Hi. unfold matrices, mat_bit. cbn [fst]. rewrite nth_map_seq by auto.
+  unfold bits_lsb. rewrite nth_map_seq by auto. f_equal.
+  pose proof (pow2_lt_nat j _ Hj) as R. rewrite Z2Nat.id in R by lia.
+  pose proof (pow2_pos d). apply compute_raw_unit; auto; lia.
+Qed.
+
+Lemma matG_spec a d j i : 0 < cw a -> 0 <= poly a < 2 ^ cw a -> 0 < d ->
+  (j < Z.to_nat d)%nat -> (i < Z.to_nat (cw a))%nat ->
+  mat_bit (snd (matrices a d)) j i =
+  Z.testbit (feedX (cw a) (poly a) d (Z.to_nat d) 0 (2 ^ Z.of_nat j)) (Z.of_nat i).
+Proof.
+  intros Hw Hp Hd Hj Hi. unfold matrices, mat_bit. cbn [snd]. rewrite nth_map_seq by auto.
+  unfold bits_lsb. rewrite nth_map_seq by auto. f_equal.
+  pose proof (pow2_lt_nat j _ Hj) as R. rewrite Z2Nat.id in R by lia.
+  pose proof (pow2_pos (cw a)). apply compute_raw_unit; auto; lia.
+Qed.
+
+Lemma net_fold (M : nat -> nat -> bool) (row : nat -> Z) src i n b0 :
+  (forall j, (j < n)%nat -> M j i = Z.testbit (row j) (Z.of_nat i)) ->
+  fold_left (fun bit j => if M j i then xorb bit (Z.testbit src (Z.of_nat j)) else bit) (seq 0 n) b0 =
+  xorb b0 (Z.testbit (xsum (fun j => sel (Z.testbit src (Z.of_nat j)) (row j)) n) (Z.of_nat i)).
+Proof.
+  induction n as [|n IH]; intros H.
+  - cbn. rewrite Z.testbit_0_l. destruct b0; reflexivity.
+  - rewrite seq_S, fold_left_app. cbn [fold_left xsum plus]. rewrite IH by (intros; apply H; lia).
+    rewrite Z.lxor_spec, H by lia.
+    destruct (Z.testbit src (Z.of_nat n)); cbn [sel]; rewrite ?Z.testbit_0_l;
+      destruct (Z.testbit (row n) (Z.of_nat i)); btauto.
+Qed.
+
+Lemma sel_feed_s w p d n b x : 0 < w -> 0 < d -> sel b (feedX w p d n x 0) = feedX w p d n (sel b x) 0.
+Proof. intros. destruct b; cbn [sel]; [reflexivity|symmetry; apply feedX_zero; auto]. Qed.
+Lemma sel_feed_x w p d n b x : 0 < w -> 0 < d -> sel b (feedX w p d n 0 x) = feedX w p d n 0 (sel b x).
+Proof. intros. destruct b; cbn [sel]; [reflexivity|symmetry; apply feedX_zero; auto]. Qed.
+
+(* the XOR network built from the matrices computes the word update (linearity + unit vectors) *)
+Lemma xor_network_spec a d src din : 0 < cw a -> 0 <= poly a < 2 ^ cw a -> 0 < d ->
+  0 <= src < 2 ^ cw a -> 0 <= din < 2 ^ d ->
+  xor_network (fst (matrices a d)) (snd (matrices a d)) (cw a) d src din =
+  feedX (cw a) (poly a) d (Z.to_nat d) src din.
+Proof.
+  intros Hw Hp Hd Hs Hu. unfold xor_network.
+  set (w := cw a) in *. set (p := poly a) in *. set (n := Z.to_nat d).
+  assert (E : forall i, (i < Z.to_nat w)%nat ->
+    fold_left (fun bit j => if mat_bit (snd (matrices a d)) j i then xorb bit (Z.testbit din (Z.of_nat j)) else bit)
+      (seq 0 (Z.to_nat d))
+      (fold_left (fun bit j => if mat_bit (fst (matrices a d)) j i then xorb bit (Z.testbit src (Z.of_nat j)) else bit)
+         (seq 0 (Z.to_nat w)) false) =
+    Z.testbit (feedX w p d n src din) (Z.of_nat i)).
+  { intros i Hi.
+    rewrite (net_fold (mat_bit (snd (matrices a d))) (fun j => feedX w p d n 0 (2 ^ Z.of_nat j)))
+      by (intros; apply matG_spec; auto).
+    rewrite (net_fold (mat_bit (fst (matrices a d))) (fun j => feedX w p d n (2 ^ Z.of_nat j) 0))
+      by (intros; apply matF_spec; auto).
+    rewrite xorb_false_l, <- Z.lxor_spec. f_equal.
+    rewrite (xsum_ext _ (fun j => feedX w p d n (sel (Z.testbit src (Z.of_nat j)) (2 ^ Z.of_nat j)) 0))
+      by (intros; apply sel_feed_s; auto).
+    rewrite (xsum_ext (fun j => sel (Z.testbit din (Z.of_nat j)) (feedX w p d n 0 (2 ^ Z.of_nat j)))
+                      (fun j => feedX w p d n 0 (sel (Z.testbit din (Z.of_nat j)) (2 ^ Z.of_nat j))))
+      by (intros; apply sel_feed_x; auto).
+    rewrite <- feedX_xsum_s, <- feedX_xsum_x by auto.
+    rewrite !xsum_bits by (rewrite Z2Nat.id by lia; auto).
+    rewrite <- feedX_lxor by auto. rewrite Z.lxor_0_r, Z.lxor_0_l. reflexivity. }
+  rewrite (of_bits_ext _ (fun i => Z.testbit (feedX w p d n src din) (Z.of_nat i))) by exact E.
+  apply of_bits_id. rewrite Z2Nat.id by lia. apply feedX_range; auto.
+Qed.
+
+(* ------------------------------------------------------------------ the hardware processor *)
+Lemma hw_next_spec a d reg c : algo_ok a = true -> 0 < d -> 0 <= reg < 2 ^ cw a ->
+  word_ok d (c_data c) = true ->
+  hw_next a d (matrices a d) reg c =
+  if c_valid c
+  then fold_left (wstep (cw a) (poly a)) (word_bits (refin a) d (c_data c)) (if c_start c then init a else reg)
+  else if c_start c then init a else reg.
+Proof.
+  intros Ha Hd Hr Hx. destruct (algo_ok_spec a Ha) as (Hw & Hp & Hi & Hxo).
+  apply word_ok_spec in Hx; [|lia]. unfold hw_next. destruct (c_valid c); [|reflexivity].
+  fold (wordin a d (c_data c)). rewrite xor_network_spec; auto.
+  - apply feedX_word_bits; auto.
+  - destruct (c_start c); auto.
+  - apply wordin_range; auto.
+Qed.
+
+Definition sstep (ws : list Z) (c : cycle) : list Z :=
+  if c_valid c then (if c_start c then [c_data c] else ws ++ [c_data c])
+  else if c_start c then [] else ws.
+
+Lemma since_start_fold cs : since_start cs = fold_left sstep cs [].
+Proof. reflexivity. Qed.
+
+Lemma message_bits_snoc a d ws x : message_bits a d (ws ++ [x]) = message_bits a d ws ++ word_bits (refin a) d x.
+Proof. unfold message_bits. rewrite flat_map_app. cbn [flat_map]. rewrite app_nil_r. reflexivity. Qed.
+
+Lemma hw_fold a d : algo_ok a = true -> 0 < d -> forall cs reg ws,
+  cycles_ok d cs = true -> forallb (word_ok d) ws = true ->
+  reg = williams_reg a (message_bits a d ws) ->
+  fold_left (hw_next a d (matrices a d)) cs reg = williams_reg a (message_bits a d (fold_left sstep cs ws)) /\
+  forallb (word_ok d) (fold_left sstep cs ws) = true.
+Proof.
+  intros Ha Hd. induction cs as [|c r IH]; intros reg ws Hc Hws Hreg; cbn [fold_left]; [auto|].
+  unfold cycles_ok in Hc. cbn [forallb] in Hc. apply andb_true_iff in Hc. destruct Hc as [Hx Hr].
+  apply IH; [exact Hr| |].
+  - unfold sstep. destruct (c_valid c), (c_start c); auto.
+    + cbn [forallb]. rewrite Hx. reflexivity.
+    + rewrite forallb_app, Hws. cbn [forallb]. rewrite Hx. reflexivity.
+  - rewrite hw_next_spec; auto; [|subst reg; apply williams_reg_range; auto].
+    unfold sstep. destruct (c_valid c), (c_start c); auto.
+    + unfold williams_reg, message_bits. cbn [flat_map]. rewrite app_nil_r. reflexivity.
+    + rewrite message_bits_snoc. unfold williams_reg. rewrite fold_left_app. subst reg. reflexivity.
+Qed.
+
+Lemma hw_run_williams a d cs : algo_ok a = true -> 0 < d -> cycles_ok d cs = true ->
+  hw_run a d cs = williams_reg a (message_bits a d (since_start cs)) /\
+  forallb (word_ok d) (since_start cs) = true.
+Proof.
+  intros Ha Hd Hc. unfold hw_run. rewrite since_start_fold. apply hw_fold; auto.
+Qed.
+
+(* crc output after any sequence of cycles = compute of the words since the last effective start *)
+Theorem hw_step_matches_compute a d cs : params_ok a d = true -> cycles_ok d cs = true ->
+  compute a d (since_start cs) = Some (hw_crc a (hw_run a d cs)).
+Proof.
+  intros Hp Hc. pose proof Hp as Hp'. unfold params_ok in Hp'. apply andb_true_iff in Hp'. destruct Hp' as [Ha Hd].
+  destruct (hw_run_williams a d cs Ha ltac:(lia) Hc) as [E Hok].
+  rewrite compute_is_williams by auto. f_equal. unfold williams, hw_crc. rewrite E. reflexivity.
+Qed.
+
+(* the per-cycle trace is the sequence of outputs of the prefixes *)
+Definition trace_go (a : algo) (d : Z) (FG : list (list bool) * list (list bool)) (res : Z) :=
+  fix go (reg : Z) (cs : list cycle) : list (Z * bool) :=
+    match cs with
+    | [] => []
+    | c :: r => let reg' := hw_next a d FG reg c in (hw_crc a reg', hw_match_r a res reg') :: go reg' r
+    end.
+
+Lemma trace_go_snoc a d FG res cs : forall reg c,
+  trace_go a d FG res reg (cs ++ [c]) =
+  trace_go a d FG res reg cs ++
+  [(hw_crc a (fold_left (hw_next a d FG) (cs ++ [c]) reg), hw_match_r a res (fold_left (hw_next a d FG) (cs ++ [c]) reg))].
+Proof.
+  induction cs as [|x r IH]; intros reg c; cbn [app fold_left trace_go]; [reflexivity|].
+  fold (trace_go a d FG res). rewrite IH. reflexivity.
+Qed.
+
+Lemma hw_trace_snoc a d cs c :
+  hw_trace a d (cs ++ [c]) =
+  hw_trace a d cs ++ [(hw_crc a (hw_run a d (cs ++ [c])), hw_match a (hw_run a d (cs ++ [c])))].
+Proof. exact (trace_go_snoc a d (matrices a d) (residue a) cs (init a) c). Qed.
+
+(* ------------------------------------------------------------------ the published table *)
+(* an entry is reproduced: valid parameters; compute(b"123456789") with 8-bit words, the Williams
+   specification run on the same bits, and residue() give the published values *)
+Definition table_ok (e : algo * (Z * Z)) : bool :=
+  let '(a, (chk, res)) := e in
+  algo_ok a &&
+  match compute a 8 check_msg with Some c => c =? chk | None => false end &&
+  (williams a (message_bits a 8 check_msg) =? chk) &&
+  (residue a =? res).
+
+Lemma catalog_check_values : forallb table_ok reveng_table = true.
+Proof. vm_compute. reflexivity. Qed.
+
+Lemma matrices_spec a d src din :
+  params_ok a d = true -> 0 <= src < 2 ^ cw a -> 0 <= din < 2 ^ d ->
+  xor_network (fst (matrices a d)) (snd (matrices a d)) (cw a) d src din =
+  fold_left (wstep (cw a) (poly a)) (word_bits false d din) src.
+Proof.
+  intros Hp Hs Hu. unfold params_ok in Hp. apply andb_true_iff in Hp. destruct Hp as [Ha Hd].
+  destruct (algo_ok_spec a Ha) as (Hw & Hpo & _). rewrite xor_network_spec by (auto; lia).
+  rewrite feedX_bits by lia. reflexivity.
+Qed.
+
+(* ------------------------------------------------------------------ residue / match_detected *)
+(* one zero message bit *)
+Definition Tz (w p s : Z) : Z := wstep w p s false.
+
+Lemma Tz_lxor w p s s' : 0 < w -> Tz w p (Z.lxor s s') = Z.lxor (Tz w p s) (Tz w p s').
+Proof. intros Hw. unfold Tz. rewrite <- wstep_lxor by auto. reflexivity. Qed.
+
+Lemma Tz_zero w p : 0 < w -> Tz w p 0 = 0.
+Proof.
+  intros Hw. unfold Tz, wstep. rewrite Z.testbit_0_l. cbn [xorb]. rewrite Z.shiftl_0_l, Z.mod_0_l; [reflexivity|].
+  pose proof (pow2_pos w); lia.
+Qed.
+
+Lemma iterT_lxor w p n : 0 < w -> forall s s',
+  iter n (Tz w p) (Z.lxor s s') = Z.lxor (iter n (Tz w p) s) (iter n (Tz w p) s').
+Proof. intros Hw. induction n as [|n IH]; intros s s'; cbn [iter]; [reflexivity|]. rewrite Tz_lxor by auto. apply IH. Qed.
+
+Lemma iterT_zero w p n : 0 < w -> iter n (Tz w p) 0 = 0.
+Proof. intros Hw. induction n as [|n IH]; cbn [iter]; [reflexivity|]. rewrite Tz_zero by auto. exact IH. Qed.
+
+Lemma iterT_range w p n s : 0 < w -> 0 <= p < 2 ^ w -> 0 <= s < 2 ^ w -> 0 <= iter n (Tz w p) s < 2 ^ w.
+Proof.
+  intros Hw Hp. revert s. induction n as [|n IH]; intros s Hs; cbn [iter]; auto. apply IH. apply wstep_range; auto.
+Qed.
+
+Lemma iter_add {A} (f : A -> A) m n x : iter (m + n) f x = iter n f (iter m f x).
+Proof. revert x. induction m as [|m IH]; intros x; cbn [iter plus]; [reflexivity|apply IH]. Qed.
+
+Lemma shX_zero d : 0 < d -> shX d 0 = 0.
+Proof. intros. unfold shX, mask. rewrite Z.shiftl_0_l, Z.mod_0_l; [reflexivity|]. pose proof (pow2_pos d); lia. Qed.
+
+(* zero data: the word update is d zero bits *)
+Lemma feedX_zero_word w p d n s : 0 < d -> feedX w p d n s 0 = iter n (Tz w p) s.
+Proof.
+  intros Hd. revert s. induction n as [|n IH]; intros s; cbn [feedX iter]; [reflexivity|].
+  rewrite shX_zero, Z.testbit_0_l by auto. apply IH.
+Qed.
+
+Lemma wstep_zero_state w p b : 0 < w -> wstep w p 0 b = sel b p.
+Proof.
+  intros Hw. unfold wstep. rewrite Z.testbit_0_l, xorb_false_l, Z.shiftl_0_l, Z.mod_0_l.
+  - destruct b; cbn [sel]; [apply Z.lxor_0_l|reflexivity].
+  - pose proof (pow2_pos w); lia.
+Qed.
+
+Lemma Tz_shifted w p d X : 0 < d <= w ->
+  Tz w p (Z.shiftl X (w - d)) = Z.lxor (sel (Z.testbit X (d - 1)) p) (Z.shiftl (shX d X) (w - d)).
+Proof.
+  intros Hd. unfold Tz, wstep. rewrite xorb_false_r, tb_shl by lia.
+  replace (w - 1 - (w - d)) with (d - 1) by lia.
+  assert (E : Z.shiftl (Z.shiftl X (w - d)) 1 mod 2 ^ w = Z.shiftl (shX d X) (w - d)).
+  { fold (mask w (Z.shiftl (Z.shiftl X (w - d)) 1)). unfold shX.
+    apply Z.bits_inj'; intros i Hi. rewrite testbit_mask, !tb_shl, testbit_mask, tb_shl by lia.
+    replace (i - 1 - (w - d)) with (i - (w - d) - 1) by lia.
+    destruct (i <? w) eqn:A, (i - (w - d) <? d) eqn:B; try lia; reflexivity. }
+  rewrite E. destruct (Z.testbit X (d - 1)); cbn [sel]; [apply Z.lxor_comm|rewrite Z.lxor_0_l; reflexivity].
+Qed.
+
+(* d <= w: feeding a d-bit word is xor-ing it into the top of the register and clocking d zero bits *)
+Lemma feedX_top_gen w p d n : 0 < d <= w -> forall X, 0 <= X < 2 ^ d ->
+  (forall i, i < d - Z.of_nat n -> Z.testbit X i = false) ->
+  feedX w p d n 0 X = iter n (Tz w p) (Z.shiftl X (w - d)).
+Proof.
+  intros Hd. induction n as [|n IH]; intros X HX Hlow; cbn [feedX iter].
+  - assert (X = 0) as ->.
+    { apply Z.bits_inj'; intros i Hi. rewrite Z.testbit_0_l, (testbit_small d X i HX).
+      destruct (i <? d) eqn:E; [|reflexivity]. apply Hlow. lia. }
+    rewrite Z.shiftl_0_l. reflexivity.
+  - rewrite wstep_zero_state by lia.
+    replace (sel (Z.testbit X (d - 1)) p) with (Z.lxor (sel (Z.testbit X (d - 1)) p) 0) by apply Z.lxor_0_r.
+    replace (shX d X) with (Z.lxor 0 (shX d X)) at 1 by apply Z.lxor_0_l.
+    rewrite feedX_lxor by lia. rewrite feedX_zero_word by lia. rewrite IH.
+    + rewrite <- iterT_lxor by lia. rewrite Tz_shifted by lia. reflexivity.
+    + apply shX_range; lia.
+    + intros i Hi. unfold shX. rewrite testbit_mask, tb_shl by lia.
+      rewrite (Hlow (i - 1)) by lia. apply andb_false_r.
+Qed.
+
+Lemma feedX_top w p d s X : 0 < d <= w -> 0 <= X < 2 ^ d ->
+  feedX w p d (Z.to_nat d) s X = iter (Z.to_nat d) (Tz w p) (Z.lxor s (Z.shiftl X (w - d))).
+Proof.
+  intros Hd HX. rewrite iterT_lxor by lia.
+  rewrite <- feedX_top_gen by (auto; intros i Hi; apply Z.testbit_neg_r; lia).
+  rewrite <- (feedX_zero_word w p d) by lia. rewrite <- feedX_lxor by lia. rewrite Z.lxor_0_r, Z.lxor_0_l. reflexivity.
+Qed.
+
+(* clocking n zero bits into a register whose top n bits are clear is a plain shift *)
+Lemma iterT_shift w p n : 0 < w -> forall y, 0 <= y -> y * 2 ^ Z.of_nat n < 2 ^ w ->
+  iter n (Tz w p) y = Z.shiftl y (Z.of_nat n).
+Proof.
+  intros Hw. induction n as [|n IH]; intros y Hy Hlt; cbn [iter]; [rewrite Z.shiftl_0_r; reflexivity|].
+  rewrite Nat2Z.inj_succ, Z.pow_succ_r in Hlt by lia. pose proof (pow2_pos (Z.of_nat n)).
+  assert (Hy2 : 0 <= y < 2 ^ (w - 1)).
+  { split; [lia|]. rewrite (pow2_split w) in Hlt by lia. nia. }
+  assert (E : Tz w p y = Z.shiftl y 1).
+  { unfold Tz, wstep. rewrite (testbit_high (w - 1) y (w - 1)) by (auto; lia). cbn [xorb].
+    apply Z.mod_small. rewrite Z.shiftl_mul_pow2 by lia. rewrite (pow2_split w) by lia. lia. }
+  rewrite E, IH.
+  - rewrite Z.shiftl_shiftl by lia. f_equal. lia.
+  - rewrite Z.shiftl_mul_pow2 by lia. lia.
+  - rewrite Z.shiftl_mul_pow2 by lia. lia.
+Qed.
+
+(* k words of d bits, first word in the most significant position *)
+Fixpoint catw (d : Z) (us : list Z) : Z :=
+  match us with
+  | [] => 0
+  | u :: r => Z.lxor (Z.shiftl u (d * Z.of_nat (length r))) (catw d r)
+  end.
+
+Definition wrange (d u : Z) : Prop := 0 <= u < 2 ^ d.
+
+Lemma catw_range d us : 0 < d -> Forall (wrange d) us -> 0 <= catw d us < 2 ^ (d * Z.of_nat (length us)).
+Proof.
+  intros Hd H. induction H as [|u r Hu Hr IH]; cbn [catw length].
+  - rewrite Z.mul_0_r. cbn. lia.
+  - rewrite Nat2Z.inj_succ, Z.mul_succ_r. set (dk := d * Z.of_nat (length r)) in *.
+    assert (0 <= dk) by (unfold dk; nia).
+    apply lxor_range.
+    + rewrite Z.add_comm. apply shiftl_range; auto.
+    + split; [lia|]. apply Z.lt_le_trans with (2 ^ dk); [lia|apply pow2_mono; lia].
+Qed.
+
+Definition feed_words (w p d s : Z) (us : list Z) : Z :=
+  fold_left (fun s u => feedX w p d (Z.to_nat d) s u) us s.
+
+Lemma feed_words_top w p d : 0 < w -> 0 <= p < 2 ^ w -> 0 < d -> forall us s,
+  Forall (wrange d) us -> d * Z.of_nat (length us) <= w -> 0 <= s < 2 ^ w ->
+  feed_words w p d s us =
+  iter (length us * Z.to_nat d) (Tz w p) (Z.lxor s (Z.shiftl (catw d us) (w - d * Z.of_nat (length us)))).
+Proof.
+  intros Hw Hp Hd. induction us as [|u r IH]; intros s Hus Hlen Hs.
+  - cbn. rewrite Z.shiftl_0_l, Z.lxor_0_r. reflexivity.
+  - inversion Hus as [|u' r' Hu Hr]; subst. unfold feed_words. cbn [length] in Hlen. cbn [fold_left length catw].
+    fold (feed_words w p d (feedX w p d (Z.to_nat d) s u) r).
+    rewrite Nat2Z.inj_succ, Z.mul_succ_r in *. pose proof (catw_range d r Hd Hr) as Hc.
+    set (dk := d * Z.of_nat (length r)) in *. assert (Hdk : 0 <= dk) by (unfold dk; nia).
+    rewrite IH; [|auto|lia|apply feedX_range; auto].
+    rewrite feedX_top by (auto; lia).
+    set (Y := Z.shiftl (catw d r) (w - (dk + d))).
+    assert (EY : Z.shiftl (catw d r) (w - dk) = iter (Z.to_nat d) (Tz w p) Y).
+    { assert (HY : 0 <= Y < 2 ^ (dk + (w - (dk + d)))) by (apply shiftl_range; [lia|exact Hc]).
+      replace (dk + (w - (dk + d))) with (w - d) in HY by lia.
+      rewrite iterT_shift; [| lia | lia |].
+      - unfold Y. rewrite Z.shiftl_shiftl by lia. f_equal. lia.
+      - rewrite Z2Nat.id by lia.
+        assert (E2 : 2 ^ w = 2 ^ (w - d) * 2 ^ d) by (rewrite <- Z.pow_add_r by lia; f_equal; lia).
+        pose proof (pow2_pos d). nia. }
+    rewrite EY, <- iterT_lxor by lia. rewrite <- iter_add.
+    replace (S (length r) * Z.to_nat d)%nat with (Z.to_nat d + length r * Z.to_nat d)%nat by reflexivity.
+    f_equal. rewrite Z.shiftl_lxor, Z.shiftl_shiftl by lia. fold Y.
+    replace (dk + (w - (dk + d))) with (w - d) by lia. rewrite Z.lxor_assoc. reflexivity.
+Qed.
+
+(* --- injectivity of zero-bit clocking for polynomials with a constant term --- *)
+Lemma testbit_Tz w p s i : 0 < w -> 0 <= i ->
+  Z.testbit (Tz w p s) i = xorb ((i <? w) && Z.testbit s (i - 1)) (Z.testbit s (w - 1) && Z.testbit p i).
+Proof.
+  intros Hw Hi. unfold Tz, wstep. rewrite xorb_false_r. fold (mask w (Z.shiftl s 1)).
+  destruct (Z.testbit s (w - 1)); rewrite ?Z.lxor_spec, testbit_mask, tb_shl by lia; btauto.
+Qed.
+
+Lemma Tz_inj w p s s' : 0 < w -> Z.testbit p 0 = true -> 0 <= s < 2 ^ w -> 0 <= s' < 2 ^ w ->
+  Tz w p s = Tz w p s' -> s = s'.
+Proof.
+  intros Hw Hp0 Hs Hs' H.
+  assert (Htop : Z.testbit s (w - 1) = Z.testbit s' (w - 1)).
+  { pose proof (f_equal (fun z => Z.testbit z 0) H) as E. cbn beta in E.
+    rewrite !testbit_Tz, Hp0 in E by lia. rewrite !(Z.testbit_neg_r _ (0 - 1)) in E by lia.
+    rewrite !andb_false_r, !andb_true_r, !xorb_false_l in E. exact E. }
+  apply Z.bits_inj'; intros i Hi.
+  destruct (Z_lt_le_dec i (w - 1)) as [L|L].
+  - pose proof (f_equal (fun z => Z.testbit z (i + 1)) H) as E. cbn beta in E.
+    rewrite !testbit_Tz in E by lia. replace (i + 1 - 1) with i in E by lia. rewrite Htop in E.
+    destruct (i + 1 <? w) eqn:A; [|lia].
+    destruct (Z.testbit s' (w - 1) && Z.testbit p (i + 1)), (Z.testbit s i), (Z.testbit s' i); cbn in E; congruence.
+  - destruct (Z.eq_dec i (w - 1)) as [->|N]; [exact Htop|].
+    rewrite (testbit_high w s i), (testbit_high w s' i) by (auto; lia). reflexivity.
+Qed.
+
+Lemma iterT_inj w p n : 0 < w -> 0 <= p < 2 ^ w -> Z.testbit p 0 = true -> forall s s',
+  0 <= s < 2 ^ w -> 0 <= s' < 2 ^ w -> iter n (Tz w p) s = iter n (Tz w p) s' -> s = s'.
+Proof.
+  intros Hw Hp Hp0. induction n as [|n IH]; intros s s' Hs Hs' H; cbn [iter] in H; [exact H|].
+  apply (Tz_inj w p); auto. apply IH; auto; apply wstep_range; auto.
+Qed.
+
+(* --- cutting a register value into words and back --- *)
+Fixpoint split_rec (d : Z) (k : nat) (u : Z) : list Z :=
+  match k with
+  | O => []
+  | S k' => (Z.shiftr u (d * Z.of_nat k')) mod 2 ^ d :: split_rec d k' u
+  end.
+
+Lemma split_words_rec d k u : split_words d k u = split_rec d k u.
+Proof.
+  induction k as [|k IH]; [reflexivity|]. unfold split_words in *. cbn [seq map split_rec].
+  f_equal.
+  - f_equal. f_equal. lia.
+  - rewrite <- IH, <- seq_shift, map_map. apply map_ext. intros i. f_equal. f_equal. lia.
+Qed.
+
+Lemma split_rec_length d k u : length (split_rec d k u) = k.
+Proof. induction k as [|k IH]; cbn [split_rec length]; [reflexivity|rewrite IH; reflexivity]. Qed.
+
+Lemma split_rec_range d k u : 0 < d -> Forall (wrange d) (split_rec d k u).
+Proof.
+  intros Hd. induction k as [|k IH]; cbn [split_rec]; constructor; auto.
+  apply Z.mod_pos_bound. apply pow2_pos; lia.
+Qed.
+
+Lemma tb_shr a n m : 0 <= n -> 0 <= m -> Z.testbit (Z.shiftr a n) m = Z.testbit a (m + n).
+Proof. intros. apply Z.shiftr_spec; lia. Qed.
+
+Lemma cat_split d k u : 0 < d -> catw d (split_rec d k u) = mask (d * Z.of_nat k) u.
+Proof.
+  intros Hd. induction k as [|k IH]; cbn [split_rec catw].
+  - rewrite Z.mul_0_r. unfold mask. rewrite Z.pow_0_r, Z.mod_1_r. reflexivity.
+  - rewrite split_rec_length, IH. rewrite Nat2Z.inj_succ, Z.mul_succ_r.
+    set (dk := d * Z.of_nat k). assert (Hdk : 0 <= dk) by (unfold dk; nia).
+    apply Z.bits_inj'; intros i Hi. fold (mask d (Z.shiftr u dk)).
+    rewrite Z.lxor_spec, tb_shl, !testbit_mask by lia.
+    destruct (Z_lt_le_dec i dk) as [L|L].
+    + rewrite (Z.testbit_neg_r _ (i - dk)) by lia. rewrite andb_false_r, xorb_false_l.
+      destruct (i <? dk) eqn:A, (i <? dk + d) eqn:B; try lia; reflexivity.
+    + rewrite tb_shr by lia. replace (i - dk + dk) with i by lia.
+      destruct (i <? dk) eqn:A; [lia|]. destruct (i - dk <? d) eqn:B, (i <? dk + d) eqn:C; try lia; btauto.
+Qed.
+
+Lemma split_rec_high d k j y x : 0 < d -> (j <= k)%nat ->
+  split_rec d j (Z.lxor (Z.shiftl y (d * Z.of_nat k)) x) = split_rec d j x.
+Proof.
+  intros Hd. induction j as [|j IH]; intros Hj; cbn [split_rec]; [reflexivity|].
+  rewrite IH by lia. f_equal.
+  set (dk := d * Z.of_nat k). set (dj := d * Z.of_nat j).
+  assert (0 <= dj /\ dj + d <= dk) by (unfold dk, dj; nia).
+  fold (mask d (Z.shiftr (Z.lxor (Z.shiftl y dk) x) dj)). fold (mask d (Z.shiftr x dj)).
+  apply Z.bits_inj'; intros i Hi. rewrite !testbit_mask, !tb_shr, Z.lxor_spec, tb_shl by lia.
+  destruct (i <? d) eqn:A; [|reflexivity]. rewrite (Z.testbit_neg_r y) by lia. rewrite xorb_false_l. reflexivity.
+Qed.
+
+Lemma split_cat d us : 0 < d -> Forall (wrange d) us -> split_rec d (length us) (catw d us) = us.
+Proof.
+  intros Hd H. induction H as [|u r Hu Hr IH]; cbn [length split_rec catw]; [reflexivity|].
+  rewrite split_rec_high, IH by (auto; lia). f_equal.
+  pose proof (catw_range d r Hd Hr) as Hc. set (dk := d * Z.of_nat (length r)) in *.
+  assert (Hdk : 0 <= dk) by (unfold dk; nia).
+  fold (mask d (Z.shiftr (Z.lxor (Z.shiftl u dk) (catw d r)) dk)).
+  apply Z.bits_inj'; intros i Hi. rewrite testbit_mask, tb_shr, Z.lxor_spec, tb_shl by lia.
+  replace (i + dk - dk) with i by lia. rewrite (testbit_high dk (catw d r) (i + dk)) by (auto; lia).
+  rewrite xorb_false_r. symmetry. apply testbit_small; auto.
+Qed.
+
+(* --- residue() and match_detected --- *)
+Definition xo_reg (a : algo) : Z := if refout a then rev_bits (xorout a) (cw a) else xorout a.
+Definition residue_reg (a : algo) : Z := iter (Z.to_nat (cw a)) (Tz (cw a) (poly a)) (xo_reg a).
+
+Lemma xo_reg_range a : algo_ok a = true -> 0 <= xo_reg a < 2 ^ cw a.
+Proof.
+  intros Ha. destruct (algo_ok_spec a Ha) as (Hw & Hp & Hi & Hx). unfold xo_reg.
+  destruct (refout a); [apply rev_bits_range; lia|auto].
+Qed.
+
+Lemma compute_raw_zero_word w p i ro : 0 < w -> 0 <= p < 2 ^ w -> 0 <= i < 2 ^ w ->
+  compute_raw (Algo w p i false ro 0) w [0] =
+  if ro then rev_bits (iter (Z.to_nat w) (Tz w p) i) w else iter (Z.to_nat w) (Tz w p) i.
+Proof.
+  intros Hw Hp Hi. rewrite compute_raw_williams.
+  - unfold williams, williams_reg, message_bits. cbn [cw poly init refin refout xorout flat_map].
+    rewrite app_nil_r, Z.lxor_0_r.
+    change (word_bits false w 0) with (map (fun i => Z.testbit 0 (w - 1 - Z.of_nat i)) (seq 0 (Z.to_nat w))).
+    rewrite <- (feedX_bits w p w (Z.to_nat w) i 0) by lia. rewrite feedX_zero_word by lia. reflexivity.
+  - unfold algo_ok. cbn [cw poly init xorout]. pose proof (pow2_pos w).
+    rewrite !andb_true_iff, !in_bits_spec. repeat split; lia.
+  - auto.
+  - cbn [forallb]. rewrite andb_true_r. apply word_ok_spec; [lia|]. pose proof (pow2_pos w). lia.
+Qed.
+
+Lemma residue_spec a : algo_ok a = true ->
+  residue a = if refout a then rev_bits (residue_reg a) (cw a) else residue_reg a.
+Proof.
+  intros Ha. destruct (algo_ok_spec a Ha) as (Hw & Hp & Hi & Hx). pose proof (xo_reg_range a Ha) as Hxo.
+  unfold residue.
+  replace (if refout a then reflect (xorout a) (cw a) else xorout a) with (xo_reg a)
+    by (unfold xo_reg; destruct (refout a); [rewrite reflect_rev by lia|]; reflexivity).
+  rewrite compute_raw_zero_word by auto. reflexivity.
+Qed.
+
+Lemma hw_match_iff a reg : algo_ok a = true -> 0 <= reg < 2 ^ cw a ->
+  hw_match a reg = true <-> reg = residue_reg a.
+Proof.
+  intros Ha Hr. destruct (algo_ok_spec a Ha) as (Hw & Hp & Hi & Hx).
+  assert (HR : 0 <= residue_reg a < 2 ^ cw a) by (apply iterT_range; auto; apply xo_reg_range; auto).
+  unfold hw_match, hw_match_r. rewrite residue_spec by auto. rewrite Z.eqb_eq.
+  destruct (refout a); [|tauto]. split; [apply rev_bits_inj; auto|intros ->; reflexivity].
+Qed.
+
+Lemma wordin_invol a d u : 0 <= u < 2 ^ d -> wordin a d (wordin a d u) = u.
+Proof. intros. unfold wordin. destruct (refin a); [apply rev_bits_invol; auto|reflexivity]. Qed.
+
+Lemma fold_message_feed_words a d t : 0 < d -> forall s,
+  fold_left (wstep (cw a) (poly a)) (message_bits a d t) s =
+  feed_words (cw a) (poly a) d s (map (wordin a d) t).
+Proof.
+  intros Hd. induction t as [|x r IH]; intros s; [reflexivity|].
+  unfold message_bits. cbn [flat_map map]. rewrite fold_left_app. fold (message_bits a d r).
+  rewrite IH, <- feedX_word_bits by auto. reflexivity.
+Qed.
+
+Lemma words_ok_wordin a d t : 0 < d -> forallb (word_ok d) t = true -> Forall (wrange d) (map (wordin a d) t).
+Proof.
+  intros Hd. induction t as [|x r IH]; intros H; cbn [map]; constructor.
+  - apply words_ok_cons in H. destruct H as [H _]. apply word_ok_spec in H; [|lia]. apply wordin_range; auto.
+  - apply IH. apply words_ok_cons in H. tauto.
+Qed.
+
+(* register after message ws followed by k = crc_width/data_width trailer words t, any schedule *)
+Lemma hw_codeword_reg a d k cs ws t : algo_ok a = true -> 0 < d -> cw a = d * Z.of_nat k ->
+  cycles_ok d cs = true -> since_start cs = ws ++ t -> length t = k ->
+  hw_run a d cs =
+  iter (Z.to_nat (cw a)) (Tz (cw a) (poly a))
+       (Z.lxor (williams_reg a (message_bits a d ws)) (catw d (map (wordin a d) t))) /\
+  Forall (wrange d) (map (wordin a d) t).
+Proof.
+  intros Ha Hd Hk Hc Hs Hl. destruct (algo_ok_spec a Ha) as (Hw & Hp & Hi & Hx).
+  destruct (hw_run_williams a d cs Ha Hd Hc) as [E Hok]. rewrite Hs in E, Hok.
+  rewrite forallb_app in Hok. apply andb_true_iff in Hok. destruct Hok as [_ Hokt].
+  pose proof (words_ok_wordin a d t Hd Hokt) as Ht. split; [|exact Ht].
+  rewrite E. unfold message_bits. rewrite flat_map_app. fold (message_bits a d ws). fold (message_bits a d t).
+  unfold williams_reg. rewrite fold_left_app. fold (williams_reg a (message_bits a d ws)).
+  rewrite fold_message_feed_words by auto.
+  rewrite feed_words_top; auto.
+  - rewrite map_length, Hl, <- Hk, Z.sub_diag, Z.shiftl_0_r. f_equal.
+    rewrite Hk, Z2Nat.inj_mul, Nat2Z.id by lia. apply Nat.mul_comm.
+  - rewrite map_length, Hl. lia.
+  - apply williams_reg_range; auto.
+Qed.
+
+Lemma trailer_words a d k c : 0 < d -> map (wordin a d) (trailer a d k c) =
+  split_rec d k (if refout a then rev_bits c (cw a) else c).
+Proof.
+  intros Hd. unfold trailer. fold (wordin a d). rewrite split_words_rec, map_map.
+  set (u := if refout a then rev_bits c (cw a) else c).
+  pose proof (split_rec_range d k u Hd) as H. induction H as [|x r Hx Hr IH]; cbn [map]; [reflexivity|].
+  rewrite wordin_invol, IH by exact Hx. reflexivity.
+Qed.
+
+Lemma crc_reg_order a s : algo_ok a = true -> 0 <= s < 2 ^ cw a ->
+  (if refout a then rev_bits (Z.lxor (if refout a then rev_bits s (cw a) else s) (xorout a)) (cw a)
+   else Z.lxor (if refout a then rev_bits s (cw a) else s) (xorout a)) = Z.lxor s (xo_reg a).
+Proof.
+  intros Ha Hs. destruct (algo_ok_spec a Ha) as (Hw & Hp & Hi & Hx). unfold xo_reg.
+  destruct (refout a); [|reflexivity]. rewrite rev_bits_lxor, rev_bits_invol by (auto; lia). reflexivity.
+Qed.
+
+Lemma lxor_move s u x : Z.lxor s u = x <-> u = Z.lxor s x.
+Proof.
+  split; intros H.
+  - rewrite <- H, <- Z.lxor_assoc, Z.lxor_nilpotent, Z.lxor_0_l. reflexivity.
+  - rewrite H, <- Z.lxor_assoc, Z.lxor_nilpotent, Z.lxor_0_l. reflexivity.
+Qed.
+
+(* message followed by its own CRC in transmission order: match_detected, under any schedule *)
+Theorem residue_match a d k cs ws c : params_ok a d = true -> cw a = d * Z.of_nat k ->
+  cycles_ok d cs = true -> compute a d ws = Some c -> since_start cs = ws ++ trailer a d k c ->
+  hw_match a (hw_run a d cs) = true.
+Proof.
+  intros Hpo Hk Hc Hcomp Hs. unfold params_ok in Hpo. apply andb_true_iff in Hpo. destruct Hpo as [Ha Hd].
+  assert (Hd' : 0 < d) by lia. destruct (algo_ok_spec a Ha) as (Hw & Hp & Hi & Hx).
+  assert (Hws : forallb (word_ok d) ws = true).
+  { destruct (forallb (word_ok d) ws) eqn:E; [reflexivity|]. apply (proj2 (compute_none_iff a d ws)) in E. congruence. }
+  rewrite compute_is_williams in Hcomp by (auto; unfold params_ok; rewrite Ha; lia). injection Hcomp as Hcv.
+  assert (Hl : length (trailer a d k c) = k).
+  { unfold trailer, split_words. rewrite !map_length, seq_length. reflexivity. }
+  destruct (hw_codeword_reg a d k cs ws (trailer a d k c) Ha Hd' Hk Hc Hs Hl) as [E _].
+  pose proof (williams_reg_range a (message_bits a d ws) Ha) as Hsr.
+  set (s := williams_reg a (message_bits a d ws)) in *.
+  apply hw_match_iff; auto; [rewrite E; apply iterT_range; auto; apply lxor_range; auto|].
+  - rewrite trailer_words by auto. rewrite cat_split by auto. rewrite <- Hk. apply mask_range; lia.
+  - rewrite E. unfold residue_reg. f_equal. rewrite trailer_words, cat_split by auto. rewrite <- Hk.
+    rewrite <- Hcv. unfold williams. cbv zeta. fold s. rewrite (crc_reg_order a s Ha Hsr).
+    rewrite mask_small by (apply lxor_range; auto; apply xo_reg_range; auto).
+    rewrite <- Z.lxor_assoc, Z.lxor_nilpotent, Z.lxor_0_l. reflexivity.
+Qed.
+
+(* polynomial with a constant term: no other trailer of k in-range words gives match_detected *)
+Theorem no_false_match a d k cs ws t c : params_ok a d = true -> Z.odd (poly a) = true ->
+  cw a = d * Z.of_nat k -> cycles_ok d cs = true -> compute a d ws = Some c ->
+  since_start cs = ws ++ t -> length t = k ->
+  hw_match a (hw_run a d cs) = true -> t = trailer a d k c.
+Proof.
+  intros Hpo Hodd Hk Hc Hcomp Hs Hl Hm. unfold params_ok in Hpo. apply andb_true_iff in Hpo. destruct Hpo as [Ha Hd].
+  assert (Hd' : 0 < d) by lia. destruct (algo_ok_spec a Ha) as (Hw & Hp & Hi & Hx).
+  assert (Hws : forallb (word_ok d) ws = true).
+  { destruct (forallb (word_ok d) ws) eqn:E; [reflexivity|]. apply (proj2 (compute_none_iff a d ws)) in E. congruence. }
+  rewrite compute_is_williams in Hcomp by (auto; unfold params_ok; rewrite Ha; lia). injection Hcomp as Hcv.
+  destruct (hw_codeword_reg a d k cs ws t Ha Hd' Hk Hc Hs Hl) as [E Ht].
+  pose proof (williams_reg_range a (message_bits a d ws) Ha) as Hsr.
+  set (s := williams_reg a (message_bits a d ws)) in *.
+  pose proof (catw_range d _ Hd' Ht) as Hcr. rewrite map_length, Hl, <- Hk in Hcr.
+  apply hw_match_iff in Hm; auto; [|rewrite E; apply iterT_range; auto; apply lxor_range; auto].
+  rewrite E in Hm. unfold residue_reg in Hm.
+  assert (Hp0 : Z.testbit (poly a) 0 = true) by (rewrite Z.bit0_odd; exact Hodd).
+  apply (iterT_inj (cw a) (poly a) _ Hw Hp Hp0) in Hm; [|apply lxor_range; auto|apply xo_reg_range; auto].
+  apply lxor_move in Hm.
+  assert (Hu : map (wordin a d) t = map (wordin a d) (trailer a d k c)).
+  { rewrite trailer_words by auto. rewrite <- Hcv. unfold williams. cbv zeta. fold s. rewrite (crc_reg_order a s Ha Hsr).
+    rewrite <- Hm. rewrite <- (split_cat d (map (wordin a d) t) Hd' Ht) at 1. rewrite map_length, Hl. reflexivity. }
+  assert (Hokt : forallb (word_ok d) t = true).
+  { destruct (hw_run_williams a d cs Ha Hd' Hc) as [_ Hok]. rewrite Hs, forallb_app in Hok.
+    apply andb_true_iff in Hok. tauto. }
+  assert (Ht2 : map (wordin a d) (map (wordin a d) t) = t).
+  { clear -Hokt Hd'. induction t as [|x r IH]; [reflexivity|]. apply words_ok_cons in Hokt. destruct Hokt as [Hx Hr].
+    apply word_ok_spec in Hx; [|lia]. cbn [map]. rewrite wordin_invol, IH by auto. reflexivity. }
+  rewrite <- Ht2, Hu, trailer_words by auto. unfold trailer. fold (wordin a d). rewrite split_words_rec. reflexivity.
+Qed.
+
+(* --- even polynomials: zero-bit clocking has a kernel, hence a second trailer that matches --- *)
+Definition kern (w p : Z) : Z := 2 ^ (w - 1) + p / 2.
+
+Lemma kern_range w p : 0 < w -> 0 <= p < 2 ^ w -> 2 ^ (w - 1) <= kern w p < 2 ^ w.
+Proof.
+  intros Hw Hp. unfold kern. rewrite (pow2_split w) in * by lia.
+  pose proof (Z.div_pos p 2). assert (p / 2 < 2 ^ (w - 1)) by (apply Z.div_lt_upper_bound; lia). lia.
+Qed.
+
+Lemma Tz_kernel w p : 0 < w -> 0 <= p < 2 ^ w -> Z.odd p = false -> Tz w p (kern w p) = 0.
+Proof.
+  intros Hw Hp Hodd. pose proof (kern_range w p Hw Hp) as Hk.
+  assert (Hev : Z.even p = true) by (rewrite <- Z.negb_odd, Hodd; reflexivity).
+  apply Z.even_spec in Hev. destruct Hev as [m Hm].
+  assert (Hm2 : p / 2 = m) by (subst p; rewrite Z.mul_comm, Z.div_mul; lia).
+  unfold Tz, wstep.
+  assert (Htop : Z.testbit (kern w p) (w - 1) = true).
+  { rewrite <- msb_test by lia. rewrite Z.mod_small by lia. lia. }
+  rewrite Htop. cbn [xorb].
+  assert (E : Z.shiftl (kern w p) 1 mod 2 ^ w = p).
+  { rewrite Z.shiftl_mul_pow2 by lia. unfold kern. rewrite Hm2.
+    replace ((2 ^ (w - 1) + m) * 2 ^ 1) with (p + 1 * 2 ^ w) by (rewrite (pow2_split w) by lia; lia).
+    fold (mask w (p + 1 * 2 ^ w)). rewrite mask_add_mul by lia. apply mask_small; auto. }
+  rewrite E. apply Z.lxor_nilpotent.
+Qed.
+
+Theorem false_match_even a d k ws c : params_ok a d = true -> Z.odd (poly a) = false ->
+  cw a = d * Z.of_nat k -> compute a d ws = Some c ->
+  exists t, length t = k /\ forallb (word_ok d) t = true /\ t <> trailer a d k c /\
+    forall cs, cycles_ok d cs = true -> since_start cs = ws ++ t -> hw_match a (hw_run a d cs) = true.
+Proof.
+  intros Hpo Hodd Hk Hcomp. unfold params_ok in Hpo. apply andb_true_iff in Hpo. destruct Hpo as [Ha Hd].
+  assert (Hd' : 0 < d) by lia. destruct (algo_ok_spec a Ha) as (Hw & Hp & Hi & Hx).
+  assert (Hws : forallb (word_ok d) ws = true).
+  { destruct (forallb (word_ok d) ws) eqn:E; [reflexivity|]. apply (proj2 (compute_none_iff a d ws)) in E. congruence. }
+  rewrite compute_is_williams in Hcomp by (auto; unfold params_ok; rewrite Ha; lia). injection Hcomp as Hcv.
+  pose proof (williams_reg_range a (message_bits a d ws) Ha) as Hsr.
+  set (s := williams_reg a (message_bits a d ws)) in *.
+  pose proof (kern_range (cw a) (poly a) Hw Hp) as Hkr. pose proof (xo_reg_range a Ha) as Hxo.
+  set (u := Z.lxor (Z.lxor s (xo_reg a)) (kern (cw a) (poly a))).
+  assert (Hu : 0 <= u < 2 ^ cw a) by (apply lxor_range; [apply lxor_range; auto|lia]).
+  set (t := map (wordin a d) (split_rec d k u)).
+  assert (Hwt : map (wordin a d) t = split_rec d k u).
+  { unfold t. rewrite map_map. pose proof (split_rec_range d k u Hd') as H.
+    induction H as [|x r Hxr Hr IH]; cbn [map]; [reflexivity|]. rewrite wordin_invol, IH by exact Hxr. reflexivity. }
+  exists t. split; [unfold t; rewrite map_length; apply split_rec_length|]. split; [|split].
+  - clear Hwt. unfold t. clear t. pose proof (split_rec_range d k u Hd') as H.
+    induction H as [|x r Hxr Hr IH]; cbn [map forallb]; [reflexivity|]. rewrite IH, andb_true_r.
+    apply word_ok_spec; [lia|]. apply wordin_range; [auto|exact Hxr].
+  - intros E. apply (f_equal (map (wordin a d))) in E. rewrite Hwt, trailer_words in E by auto.
+    apply (f_equal (catw d)) in E. rewrite !cat_split, <- Hk in E by auto.
+    rewrite <- Hcv in E. unfold williams in E. cbv zeta in E. fold s in E. rewrite (crc_reg_order a s Ha Hsr) in E.
+    rewrite !mask_small in E by (auto; apply lxor_range; auto).
+    unfold u in E. apply (proj1 (lxor_move _ _ _)) in E. rewrite Z.lxor_nilpotent in E. lia.
+  - intros cs Hc Hs.
+    assert (Hl : length t = k) by (unfold t; rewrite map_length; apply split_rec_length).
+    destruct (hw_codeword_reg a d k cs ws t Ha Hd' Hk Hc Hs Hl) as [E _]. fold s in E.
+    rewrite Hwt, cat_split, <- Hk, mask_small in E by auto.
+    apply hw_match_iff; auto; [rewrite E; apply iterT_range; auto; apply lxor_range; auto|].
+    rewrite E. unfold residue_reg, u.
+    replace (Z.lxor s (Z.lxor (Z.lxor s (xo_reg a)) (kern (cw a) (poly a))))
+      with (Z.lxor (xo_reg a) (kern (cw a) (poly a)))
+      by (rewrite <- !Z.lxor_assoc, Z.lxor_nilpotent, Z.lxor_0_l; reflexivity).
+    rewrite iterT_lxor by lia.
+    replace (iter (Z.to_nat (cw a)) (Tz (cw a) (poly a)) (kern (cw a) (poly a))) with 0; [apply Z.lxor_0_r|].
+    replace (Z.to_nat (cw a)) with (S (Z.to_nat (cw a - 1))) by lia. cbn [iter].
+    rewrite Tz_kernel by auto. symmetry. apply iterT_zero. lia.
+Qed.
+
+(* the word update of the Williams register is GF(2)-linear in (register, word) *)
+Theorem step_linear w p d s s' u u' : 0 < w -> 0 < d ->
+  fold_left (wstep w p) (word_bits false d (Z.lxor u u')) (Z.lxor s s') =
+  Z.lxor (fold_left (wstep w p) (word_bits false d u) s) (fold_left (wstep w p) (word_bits false d u') s').
+Proof.
+  intros Hw Hd.
+  change (word_bits false d (Z.lxor u u')) with (map (fun i => Z.testbit (Z.lxor u u') (d - 1 - Z.of_nat i)) (seq 0 (Z.to_nat d))).
+  change (word_bits false d u) with (map (fun i => Z.testbit u (d - 1 - Z.of_nat i)) (seq 0 (Z.to_nat d))).
+  change (word_bits false d u') with (map (fun i => Z.testbit u' (d - 1 - Z.of_nat i)) (seq 0 (Z.to_nat d))).
+  rewrite <- !feedX_bits by auto. apply feedX_lxor; auto.
 Qed.
